@@ -94,7 +94,10 @@ void vh_ctx_free(vh_ctx_t * v);      /* drains the error queue first (releases t
 void vh_ctx_clear_capture(vh_ctx_t * v);
 #define VH_OF(context) ((vh_ctx_t *) (context)->user_context)
 
-scpi_result_t vh_handler(scpi_t * context); /* generic instrumented handler */
+scpi_result_t vh_handler(scpi_t * context);
+/* called by vh_handler on entry (stage 0) and between the last parameter and the first result (stage 1): lets a check do what an
+ * application may do inside a callback, e.g. run the parser of ANOTHER context (all library state is per context) */
+extern void (*vh_nested_hook)(scpi_t * context, int stage); /* generic instrumented handler */
 extern const scpi_choice_def_t vh_choices[];
 
 /* feed helpers */
